@@ -450,9 +450,33 @@ def r06_11(ctx: Ctx):
     roles = C.roles_of(ctx)
     e = evo.evo_of(ctx)
     sb = e.cls.methods.get('SetBounds')
+    api = [roles.api(n) for n in ('Solve', 'DoGlobalIteration', 'DoLocalRefinement', 'GetResults')]
+    reach = ctx.pta.reachable([a for a in api if a is not None])
+    # configuration of the evolvent = what its constructor stores, minus the working attributes the queries rewrite
+    init = e.cls.methods['__init__']
+    scratch = set(e._scratch_attrs())
+    try:
+        from . import caches
+        scratch |= set(caches.lazy_caches(ctx, e.cls))
+    except AnalysisError:
+        pass
+    config = {m.field for m in roles.mutations() if m.init_self and m.func is init and isinstance(m.field, str)} - scratch
+    n_w = 0
+    for m in roles.mutations():
+        if m.init_self or m.kind not in ('attr', 'aug') or m.field not in config:
+            continue
+        if not any(o.cls is not None and o.cls.is_subclass_of(e.cls) for o in m.bases):
+            continue
+        n_w += 1
+        if roles.fq(m.func) in reach:
+            ctx.fail(rid, m.func.short, m.loc(),
+                     f'{m.text()[:60]} re-configures the evolvent ({m.field}) from inside the search: points stored '
+                     f'before are images under the old configuration, points stored after under the new one - the '
+                     f'records are no longer all images of their coordinates under one evolvent',
+                     key=f'{rid}::{m.func.short}::reconfigures::{m.field}')
+    ctx.ok(rid, e.cls.name, f'{len(config)} configuration attributes, {n_w} writers outside the constructor, none '
+                            f'reachable from the solving API', e.cls.module.relpath)
     if sb is not None:
-        api = [roles.api(n) for n in ('Solve', 'DoGlobalIteration', 'DoLocalRefinement', 'GetResults')]
-        reach = ctx.pta.reachable([a for a in api if a is not None])
         ctx.check(roles.fq(sb) not in reach, rid, sb.short, sb.loc(),
                   'SetBounds is not reachable from the solving API',
                   'a routine of the solving API re-targets the evolvent (SetBounds): points stored before are no '
